@@ -46,6 +46,12 @@ SearchClauses(r) ==
                       Optimum(r.fn, prof, r.total, C, r.winner))
               THEN {"optimal"} ELSE {})
         \cup (IF \A k \in 1..Len(res) : res[k].re_tw = res[k].tw /\ res[k].re_tl = res[k].tl THEN {} ELSE {"reapply"})
+        \* the audit's assorter mean over the cards that carry the contest: (W - L + n)/(2n), so > 1/2 iff W > L
+        \cup (IF \A k \in 1..Len(res) : "mean" \in DOMAIN res[k] =>
+                    (IsNum(res[k].mean) /\ Len(prof) > 0 /\
+                     RClose(RParse(res[k].mean), R(TallyW(prof, AsnOf(res[k])) - TallyL(prof, AsnOf(res[k])) + Len(prof), 2 * Len(prof)),
+                            RParse("1/1000000000"), RParse("1/1000000000")))
+              THEN {} ELSE {"reapply:mean"})
 
 VoteClauses(r) ==
     LET a == AsnOf(r.asn)
